@@ -66,6 +66,29 @@ type Filter struct {
 	Limit   OptInt              `json:"limit"`
 }
 
+// UnmarshalJSON accepts TLC's rendering, where an empty function is [].
+func (f *Filter) UnmarshalJSON(b []byte) error {
+	var raw struct {
+		IDs     StrSet          `json:"ids"`
+		Authors StrSet          `json:"authors"`
+		Kinds   IntSet          `json:"kinds"`
+		Tags    json.RawMessage `json:"tags"`
+		Since   OptInt          `json:"since"`
+		Until   OptInt          `json:"until"`
+		Limit   OptInt          `json:"limit"`
+	}
+	if err := json.Unmarshal(b, &raw); err != nil {
+		return err
+	}
+	*f = Filter{IDs: raw.IDs, Authors: raw.Authors, Kinds: raw.Kinds, Since: raw.Since, Until: raw.Until, Limit: raw.Limit, Tags: map[string][]string{}}
+	if len(raw.Tags) > 0 && raw.Tags[0] == '{' {
+		if err := json.Unmarshal(raw.Tags, &f.Tags); err != nil {
+			return err
+		}
+	}
+	return nil
+}
+
 // Norm makes the JSON form TLC-friendly (no null).
 func (f Filter) Norm() Filter {
 	if f.IDs.S == nil {
@@ -189,6 +212,9 @@ func (c *Conc) AddrValue(v string) string {
 }
 
 func (c *Conc) tagValue(name, val string) string {
+	if val == "" {
+		return ""
+	}
 	switch name {
 	case "e", "E":
 		return c.FakeID(val)
